@@ -212,6 +212,11 @@ func (db *DB) GarbageCollect(ctx context.Context) error {
 	db.resourceCount.Add(1)
 	defer db.resourceCount.Add(-1)
 
+	// A time-range delete resolves its pointers and byte offsets before it takes the index
+	// write lock; compaction rewrites those offsets. The two never run at the same time.
+	db.idx.deleteLock.Lock()
+	defer db.idx.deleteLock.Unlock()
+
 	if _, err := db.fc.gcWriters(); err != nil {
 		return span.Error(err)
 	}
